@@ -59,3 +59,12 @@ package pot
 //@   loop 3 invariant prevLevel == ite(rangeindex < 0, 0, ll.levels[rangeindex].Level)
 //@   loop 3 invariant forall k :: 0 <= k && k <= rangeindex ==>
 //@      ll.levels[k].Wager == ll.levels[k].Level - ite(k == 0, 0, ll.levels[k - 1].Level)
+
+// GetPots: assumed contract (body not verified: its full statement is covered by the bounded stand-in of C16)
+//@ func (*LevelList).GetPots(ll) (res)
+//@   trusted
+//@   requires WFLL(ll)
+//@   modifies Pot, Level, map(map[int]int64), elems(*Level), elems(*Pot), elems(int)
+//@   allocs
+//@   ensures WFLL(ll)
+//@   ensures forall k :: 0 <= k && k < len(res) ==> res[k] != nil
